@@ -484,8 +484,15 @@ class History:
                 pairs.append((keys.make(int(z), int(kid)), val_of(val)))
             # a mapping when the keys are pairwise distinct and the step number is even,
             # otherwise an iterable of pairs (both argument forms of update)
-            distinct = len(set(int(i.split(":")[0]) for i in toks[1:])) == len(pairs)
-            if distinct and self.step % 3 == 0:
+            zs = [int(i.split(":")[0]) for i in toks[1:]]
+            distinct = len(set(zs)) == len(pairs)
+            if distinct and zs == sorted(zs) and self.step % 2 == 0:
+                # another BPlusTreeMap as the argument (its items() come in key order, which is the order given)
+                other = BPlusTreeMap(capacity=4 + self.step % 5)
+                for k, v in pairs:
+                    other[k] = v
+                t.update(other)
+            elif distinct and self.step % 3 == 0:
                 t.update(dict(pairs))
             elif distinct and self.step % 3 == 1:
                 t.update(KeysOnly(dict(pairs)))      # has keys() and __getitem__ but no items()
